@@ -164,8 +164,13 @@ func (in *Interp) newError(msg string) V {
 	return IfaceV{T: types.NewPointer(t), V: Ptr{C: c}}
 }
 
+var extraIntrinsics []func(in *Interp)
+
 func registerIntrinsics2(in *Interp) {
 	r := in.intr
+	for _, f := range extraIntrinsics {
+		f(in)
+	}
 	r["fmt.Sprintf"] = func(in *Interp, fr *Frame, a []V) V {
 		f := a[0].(StrV)
 		if !f.Concrete() {
@@ -286,4 +291,154 @@ func registerIntrinsics2(in *Interp) {
 		in.lastClock = t
 		return t
 	}
+}
+
+// ---------- encoding/binary.Read / Write (fixed-size scalars and []byte) ----------
+
+func (in *Interp) orderIsLittle(order V) bool {
+	iv, ok := order.(IfaceV)
+	if !ok || iv.T == nil {
+		in.unsupported("nil byte order")
+	}
+	name := iv.T.String()
+	switch {
+	case strings.Contains(name, "littleEndian"):
+		return true
+	case strings.Contains(name, "bigEndian"):
+		return false
+	}
+	in.unsupported("byte order %s", name)
+	return true
+}
+
+func (in *Interp) findFunc(pkgPath, name string) *ssa.Function {
+	p := in.Prog.ImportedPackage(pkgPath)
+	if p == nil {
+		in.unsupported("package %s not loaded", pkgPath)
+	}
+	f := p.Func(name)
+	if f == nil {
+		in.unsupported("function %s.%s not found", pkgPath, name)
+	}
+	return f
+}
+
+func init() {
+	extraIntrinsics = append(extraIntrinsics, func(in *Interp) {
+		r := in.intr
+		r["encoding/binary.Read"] = func(in *Interp, fr *Frame, a []V) V {
+			little := in.orderIsLittle(a[1])
+			data := a[2].(IfaceV)
+			var n int
+			var elemT types.Type
+			var dstSlice SliceV
+			isSlice := false
+			switch t := data.T.(type) {
+			case *types.Pointer:
+				elemT = t.Elem()
+				if w, _, ok := intWidth(elemT); ok {
+					n = w / 8
+				} else if s, ok := isFloat(elemT); ok {
+					n = 8
+					if s.K == SFP32 {
+						n = 4
+					}
+				} else if isBool(elemT) {
+					n = 1
+				} else {
+					in.unsupported("binary.Read into %s", data.T)
+				}
+			case *types.Slice:
+				if w, _, ok := intWidth(t.Elem()); !ok || w != 8 {
+					in.unsupported("binary.Read into %s", data.T)
+				}
+				dstSlice = data.V.(SliceV)
+				n = dstSlice.Len
+				isSlice = true
+			default:
+				in.unsupported("binary.Read into %s", data.T)
+			}
+			buf := in.newArrayCell(types.Typ[types.Uint8], n, "binary.Read")
+			bs := SliceV{Arr: buf, Len: n, Cap: n}
+			res := in.callSSA(in.findFunc("io", "ReadFull"), []V{a[0], bs}, nil, fr).(TupleV)
+			in.curFrame = fr
+			if err := res[1].(IfaceV); err.T != nil {
+				return err
+			}
+			if isSlice {
+				for i := 0; i < n; i++ {
+					in.writeCell(dstSlice.Arr.Kids[dstSlice.Off+i], in.readCell(buf.Kids[i]))
+				}
+				return IfaceV{}
+			}
+			var t *Term
+			for i := 0; i < n; i++ {
+				idx := i
+				if !little {
+					idx = n - 1 - i
+				}
+				b := in.readCell(buf.Kids[idx]).(*Term)
+				if t == nil {
+					t = b
+				} else {
+					t = Concat(b, t)
+				}
+			}
+			var val V = t
+			if _, ok := isFloat(elemT); ok {
+				val = FPFromBits(t)
+			} else if isBool(elemT) {
+				val = Not(Eq(t, BVConst(0, 8)))
+			}
+			in.store(data.V.(Ptr), val)
+			return IfaceV{}
+		}
+		r["encoding/binary.Write"] = func(in *Interp, fr *Frame, a []V) V {
+			little := in.orderIsLittle(a[1])
+			data := a[2].(IfaceV)
+			var bytesT []*Term
+			if sl, ok := data.T.Underlying().(*types.Slice); ok {
+				if w, _, ok2 := intWidth(sl.Elem()); !ok2 || w != 8 {
+					in.unsupported("binary.Write of %s", data.T)
+				}
+				s := data.V.(SliceV)
+				for i := 0; i < s.Len; i++ {
+					bytesT = append(bytesT, in.readCell(s.Arr.Kids[s.Off+i]).(*Term))
+				}
+			} else {
+				var t *Term
+				if w, _, ok := intWidth(data.T); ok {
+					t = data.V.(*Term)
+					_ = w
+				} else if _, ok := isFloat(data.T); ok {
+					t = in.fpToBits(data.V.(*Term))
+				} else if isBool(data.T) {
+					t = Ite(data.V.(*Term), BVConst(1, 8), BVConst(0, 8))
+				} else {
+					in.unsupported("binary.Write of %s", data.T)
+				}
+				n := t.S.W / 8
+				for i := 0; i < n; i++ {
+					bytesT = append(bytesT, Extract(t, 8*i+7, 8*i))
+				}
+				if !little {
+					for i, j := 0, len(bytesT)-1; i < j; i, j = i+1, j-1 {
+						bytesT[i], bytesT[j] = bytesT[j], bytesT[i]
+					}
+				}
+			}
+			buf := in.newArrayCell(types.Typ[types.Uint8], len(bytesT), "binary.Write")
+			for i, b := range bytesT {
+				buf.Kids[i].V = b
+			}
+			w := a[0].(IfaceV)
+			m := in.lookupMethod(w.T, "Write")
+			if m == nil {
+				in.unsupported("binary.Write: writer %s has no Write", w.T)
+			}
+			res := in.callSSA(m, []V{w.V, SliceV{Arr: buf, Len: len(bytesT), Cap: len(bytesT)}}, nil, fr).(TupleV)
+			in.curFrame = fr
+			return res[1]
+		}
+	})
 }
